@@ -47,7 +47,7 @@ end
 def hexOf (bs : Bytes) : String := toHex (ByteArray.mk bs.toArray)
 
 def tyOf (name cfg : String) : Option Ty :=
-  match Spec.lookup name, parseCfg cfg with
+  match Spec.lookup (Name.ofString name), parseCfg cfg with
   | some st, some c => some (st.eval c)
   | _, _ => none
 
@@ -60,7 +60,7 @@ def decodeLine (t : Ty) (bs : Bytes) : String :=
 
 def sszLine (line : String) : String :=
   match tokens line with
-  | ["keys", ks] => if ks.splitOn "," == Spec.configKeys then "ok" else "keys-mismatch"
+  | ["keys", ks] => if ks.splitOn "," == Spec.configKeys.map Name.toString then "ok" else "keys-mismatch"
   | ["schema", name, cfg] =>
     match tyOf name cfg with
     | some t => showTy t
